@@ -99,11 +99,11 @@ def nonFreeMask (jntType : List Int) : List Bool :=
 /-- the double nearest to the literal `0.001` (`(0.001).as_integer_ratio()`) -/
 def cylThreshold : Rat := (1152921504606847 : Rat) / (1152921504606846976 : Rat)
 
-/-- `mj.geom_contype[i] | mj.geom_conaffinity[i] << 32`.  Both operands are `numpy.int32`; numpy
-(2.x, NEP 50) keeps the python int `32` weak, so the shift is an **int32** shift by the full bit
-width, which numpy defines as `0`.  The mask is therefore `contype | 0 = contype`: the
-conaffinity half is lost.  (This is what the code does; see `cylinder_conaffinity_only_accepted`.) -/
-def shl32Int32 (_ : Int) : Int := 0
+/-- `int(mj.geom_contype[i]) | int(mj.geom_conaffinity[i]) << 32` on python ints (since the fix
+132d4d7; before it both operands were `numpy.int32` and the shift by the full width gave 0).
+`shl32Int32 x = x << 32`.  For the bit masks of a compiled model (`MaskBits`: `0 ≤ contype < 2³¹`,
+`0 ≤ conaffinity`) the bitwise or of the two disjoint halves is their sum. -/
+def shl32Int32 (x : Int) : Int := x * 4294967296
 def collisionMask (contype conaffinity : Int) : Int := contype + shl32Int32 conaffinity
 
 /-! ## `validate_model`, branch by branch in source order -/
@@ -327,6 +327,9 @@ def BodyOrder (m : MjFeatures) : Prop :=
 def BodiesJointed (m : MjFeatures) : Prop :=
   (∀ b ∈ m.jntBodyid, 1 ≤ b ∧ b < (m.bodyParentid.length : Int)) ∧
   ∀ b ∈ List.range' 1 (m.bodyParentid.length - 1), (b : Int) ∈ m.jntBodyid
+/-- collision bit masks are non-negative int32 values (so `contype | conaffinity << 32` is the sum) -/
+def MaskBits (m : MjFeatures) : Prop :=
+  (∀ c ∈ m.geomContype, 0 ≤ c ∧ c < 2147483648) ∧ (∀ c ∈ m.geomConaffinity, 0 ≤ c ∧ c < 2147483648)
 /-- a joint transmission names a joint -/
 def ActOk (m : MjFeatures) : Prop :=
   ∀ ti ∈ m.actTrntype.zip m.actTrnid, ti.1 = 0 → 0 ≤ ti.2 ∧ ti.2 < (m.jntType.length : Int)
@@ -335,7 +338,7 @@ def ActOk (m : MjFeatures) : Prop :=
 checked by the driver on every correspondence input) -/
 def WF (m : MjFeatures) : Prop :=
   JntShapes m ∧ GeomShapes m ∧ ActShapes m ∧ JntSorted m ∧ AdrOk m ∧ BodyOrder m ∧
-  BodiesJointed m ∧ ActOk m
+  BodiesJointed m ∧ ActOk m ∧ MaskBits m
 
 instance (m : MjFeatures) : Decidable (JntShapes m) := by unfold JntShapes; infer_instance
 instance (m : MjFeatures) : Decidable (GeomShapes m) := by unfold GeomShapes; infer_instance
@@ -345,6 +348,7 @@ instance (m : MjFeatures) : Decidable (AdrOk m) := by unfold AdrOk; infer_instan
 instance (m : MjFeatures) : Decidable (BodyOrder m) := by unfold BodyOrder; infer_instance
 instance (m : MjFeatures) : Decidable (BodiesJointed m) := by unfold BodiesJointed; infer_instance
 instance (m : MjFeatures) : Decidable (ActOk m) := by unfold ActOk; infer_instance
+instance (m : MjFeatures) : Decidable (MaskBits m) := by unfold MaskBits; infer_instance
 instance (m : MjFeatures) : Decidable (WF m) := by unfold WF; infer_instance
 
 end Brax.C14
